@@ -304,6 +304,10 @@ func (c *fileCtx) mk(t *Ty, id string, konst bool) string {
 	case "struct":
 		return c.ty(t) + "{ID_: " + id + "}"
 	case "iface":
+		if len(t.Params) > 0 {
+			// an interface literal with methods: Params[0] is a type implementing it
+			return c.ty(t) + "(" + c.mk(t.Params[0], id, konst) + ")"
+		}
 		return c.ty(t) + "(" + id + ")"
 	}
 	panic("mk: bad kind " + t.K)
@@ -365,6 +369,12 @@ func (c *fileCtx) itemExpr(it *Item) string {
 	case KIfaceValue:
 		return w + ".InterfaceValue(new(" + c.ty(it.Iface) + "), " + c.valueExpr(it) + ")"
 	case KBind:
+		switch it.Spelling {
+		case "typed-nil-second":
+			return w + ".Bind(new(" + c.ty(it.Iface) + "), (*" + c.ty(it.Concrete) + ")(nil))"
+		case "typed-nil-both":
+			return w + ".Bind((*" + c.ty(it.Iface) + ")(nil), (*" + c.ty(it.Concrete) + ")(nil))"
+		}
 		return w + ".Bind(new(" + c.ty(it.Iface) + "), new(" + c.ty(it.Concrete) + "))"
 	case KFields:
 		s := w + ".FieldsOf(new(" + c.ty(it.Parent) + ")"
@@ -530,7 +540,11 @@ func (p *Program) Files(withDriver bool) map[string]string {
 			if f > 0 {
 				name = fmt.Sprintf("wire_%c.go", 'a'+f)
 			}
-			files[filepath.Join(dir, name)] = c.file("//go:build wireinject\n// +build wireinject\n\n")
+			hdr := "//go:build wireinject\n// +build wireinject\n\n"
+			if p.GeneratedHeader {
+				hdr = "// Code generated by mkwire from app.tmpl. DO NOT EDIT.\n\n" + hdr
+			}
+			files[filepath.Join(dir, name)] = c.file(hdr)
 		}
 		for k, v := range p.Extra {
 			if strings.HasPrefix(k, "0/") {
